@@ -59,6 +59,9 @@ def gen_spec(rnd, dotted=None):
     comps = rnd.sample(pool, n)
     pairs = [(a, b) for a in comps for b in comps if a != b]
     rel = rnd.sample(pairs, rnd.randint(0, min(len(pairs), 7)))
+    if rnd.random() < 0.12:
+        c = rnd.choice(comps)
+        rel.insert(rnd.randint(0, len(rel)), (c, c))  # an arrow from a component to itself is an arrow that is drawn
     decl = {}
     for i, c in enumerate(comps):
         form = rnd.choice(rpuml.DECL_FORMS)
@@ -69,6 +72,8 @@ def gen_spec(rnd, dotted=None):
             # half of the aliases are tokens that other diagrams of the same process use as component names
             free = [x for x in NAMES if x not in comps and x not in {a for _f, a in decl.values() if a}]
             alias = rnd.choice(free) if free and rnd.random() < 0.5 else f"al{i}"
+            if "." not in c and rnd.random() < 0.08:
+                alias = c  # '[X] as X': pointless but legal, the alias resolves to the component it names
         decl[c] = (form, alias)
     referenced = {x for p in rel for x in p}
     for c in comps:
